@@ -297,4 +297,7 @@ class FloatEnumParam(Parameter):
         """register callbacks for consistency"""
         super().finish(modobj)
         if modobj:
+            # the stored value is derived from the index: make it consistent
+            # already before the first update of the index parameter
+            self.value = self.valuedict[modobj.parameters[self.idx_name].value]
             modobj.addCallback(self.idx_name, self.trigger_setter, modobj)
